@@ -493,6 +493,14 @@ pub fn plan(property: &str, tier: Tier, seed: u64) -> Option<Plan> {
             hist_units("C20", "hist", tier.pick(150, 1500), 384, seed, any_spec, true),
             format!("{GEN_RULE}at least two pushes that use two different non-canonical input forms; indices and Σused must equal those of a twin universe fed the canonical form (&Owned)."),
         ),
+        "C05" => (
+            crate::engines::index::units("C05", !q, seed, false),
+            "Index containers. (a) bounded-exhaustive: every sequence of push(x)/clear over the alphabet {0,1,2,3,4,6,u32::MAX,u32::MAX+1,2^63,usize::MAX,clear} up to length 6 (quick) / 7 (thorough; 9 on a 6-symbol sub-alphabet) applied to Stride, IndexList, IndexOptimized (Vec<usize> to length 5), explored depth-first with cloned state, compared after every op with a Vec<usize> reference (len, is_empty, index(i) for all i, iteration) and, for Stride, with a u128 acceptor of the documented pattern (accept/reject, state unchanged on reject); any panic is a violation. (b) proptest tapes decoded into op lists built from arithmetic runs, repeat runs, boundary values, clear, extend, reserve, serde round trip, clone/clone_from (<= 2000 elements). Non-trivial: >= 3 pushes and the sequence left the pure stride pattern, or a push was rejected, or a clear was followed by reuse; enumerated sequences are distinct by construction, random ones are counted by hash.".to_string(),
+        ),
+        "C19" => (
+            crate::engines::index::units("C19", !q, seed, true),
+            "Index containers, space rule. The same enumeration and random op lists as C05, with the documented cost computed independently in u128 (longest 0,s,2s,..,repeat-last prefix free; then 4 bytes per entry until the first value above u32::MAX, 8 bytes from there on): the sum of used bytes reported by heap_size must not exceed it, and a pure stride/saturation sequence on a container that never spilled or reserved must report no capacity at all. Non-trivial as in C05.".to_string(),
+        ),
         _ => return None,
     };
     if q {
